@@ -295,6 +295,20 @@ def run_chunk(binary, args, env, timeout):
     return p.returncode, lines, p.stderr
 
 
+def death_signature(stderr):
+    """If the process was killed by a panic / fatal error whose stack runs through repository code (a goroutine the
+    library started: no caller can recover it), returns ("process_killed:<function>", first line); else None."""
+    import re
+    if "panic:" not in stderr and "fatal error:" not in stderr:
+        return None
+    first = next((l for l in stderr.splitlines() if l.startswith("panic:") or l.startswith("fatal error:")), "")
+    for l in stderr.splitlines():
+        m = re.match(r"^(github.com/aml-org/amf-custom-validator/[^\s(]+)", l)
+        if m and "/simrt" not in m.group(1) and "/simharness" not in m.group(1):
+            return "process_killed:" + m.group(1).replace("github.com/aml-org/amf-custom-validator/", ""), first[:300]
+    return None
+
+
 def run_engine_a(sc, binary, mode, tier, seed0, count, chunk, nproc, race=False, timeout=900, stop_on_violation=True, gomaxprocs=4, refbin=None, free=False):
     """Runs `count` seeds starting at seed0 in chunks over nproc processes; returns an Agg."""
     agg = Agg()
@@ -321,7 +335,9 @@ def run_engine_a(sc, binary, mode, tier, seed0, count, chunk, nproc, race=False,
             if free:
                 args.append("-free")
             # fresh processes differ in their environment too: the time zone of the process must not show in a report
-            env = {"GOMAXPROCS": str(gomaxprocs), "TZ": ["UTC", "Asia/Tokyo", "America/New_York", "Europe/Madrid"][(start // max(chunk, 1)) % 4]}
+            # tuning knobs vary per process too: correctness must not depend on the number of Ps
+            gmp = gomaxprocs if race or free else [gomaxprocs, 1, 2][(start // max(chunk, 1)) % 3]
+            env = {"GOMAXPROCS": str(gmp), "TZ": ["UTC", "Asia/Tokyo", "America/New_York", "Europe/Madrid"][(start // max(chunk, 1)) % 4]}
             if refbin:
                 env["SIM_REFBIN"] = refbin
             if race:
@@ -339,6 +355,25 @@ def run_engine_a(sc, binary, mode, tier, seed0, count, chunk, nproc, race=False,
                 last = stopped[0]["stopped_after_seed"]
                 n -= (last + 1 - start)
                 start = last + 1
+                continue
+            dead = death_signature(err)
+            if dead:
+                # the batch process was killed inside the run that was in progress: a panic in a goroutine the library
+                # started, which no caller can recover. That run did not "return what it would return alone".
+                nres = sum(1 for l in lines if "seed" in l and "sig" in l)
+                seed = start + nres
+                _, slines, _ = run_chunk(binary, ["batch", "-mode", mode, "-tier", tier, "-corpus", sc.corpus_path, "-census", sc.census_path,
+                                                  "-refdir", refdir, "-seeds", "%d:1" % seed, "-speconly"], env, 300)
+                spec = next((l["spec"] for l in slines if l.get("seed") == seed), None)
+                if spec is None:
+                    raise HarnessError("engine A batch %d:%d was killed (%s) and its spec could not be regenerated" % (start, n, dead[1]))
+                done.append({"seed": seed, "sig": "dead-%d" % seed, "spec": spec, "decisions": None, "stats": {}, "nontrivial": True,
+                             "prefix_seeds": list(range(start, seed)), "tier": tier, "tz": env.get("TZ"), "from_seed_only": True,
+                             "violation": {"class": "process_killed", "task": -1, "op": -1, "kind": "process_killed", "sig": dead[0],
+                                           "detail": "the process was killed by a panic in a goroutine the library started: " + dead[1]}})
+                stop["n"] += 1
+                n -= (seed + 1 - start)
+                start = seed + 1
                 continue
             raise HarnessError("engine A batch %d:%d ended unexpectedly (rc=%d): %s" % (start, n, rc, err[-3000:]))
         return done
@@ -372,6 +407,9 @@ def replay_once(sc, binary, rfile, race=False, timeout=300):
     for l in lines:
         if "seed" in l and "sig" in l:
             return l
+    dead = death_signature(err)
+    if dead:
+        return {"seed": -1, "sig": "dead", "tracesig": "dead", "violation": {"class": "process_killed", "sig": dead[0], "detail": dead[1]}}
     raise HarnessError("replay produced no result (rc=%d): %s" % (rc, err[-2000:]))
 
 
@@ -536,7 +574,8 @@ def report_violations_a(prop, sc, binary, agg, race=False, max_report=2):
         raw = os.path.join(rdir, "%s-%d-raw.json" % (prop, r["seed"]))
         json.dump(rf, open(raw, "w"), indent=1)
         try:
-            small = minimise_a(sc, binary, rf, race)
+            # a run that killed its process left no decision list: it is re-executed from its seed, not minimised
+            small = rf if r.get("from_seed_only") else minimise_a(sc, binary, rf, race)
         except Exception as ex:  # minimisation is best effort; the raw file still replays
             log("minimisation failed:", ex)
             small = rf
